@@ -285,6 +285,16 @@ pub fn run(ctx: &Ctx, focus: &str) -> Result<()> {
 			match guarded(|| rt.block_on(op.get_tile_data(&TileCoord3 { x: 1, y: 2, z: 3 }))) {
 				Ok(Ok(Some(b))) => {
 					let raw = versatiles_core::utils::decompress(b, &op.get_parameters().tile_compression).map(|x| x.into_vec()).unwrap_or_default();
+					// the same join on the Coq model (Model/MVTUpdate.v): rows typed as above, and which entries of the named layer's
+					// value table print (Display) as which row's id
+					if t.iter().filter(|l| l.name == layer_name).count() <= 1 {
+						let rows_txt = if rows.is_empty() { "-".to_string() } else { rows.iter().map(|(a, b, c)| format!("{}=u{a}&{}={}&{}={}", hx(b"id"), hx(b"extra"), parse_val(b), hx(b"kind"), parse_val(c))).collect::<Vec<_>>().join("|") };
+						let idmap: Vec<String> = t.iter().find(|l| l.name == layer_name).map(|l| l.vals.iter().enumerate().filter_map(|(j, v)| {
+							let txt = match v { GVal::Str(s) => s.clone(), GVal::Bool(b) => b.to_string(), GVal::UInt(u) => u.to_string(), GVal::Int64(z) | GVal::SInt(z) => z.to_string(), GVal::F32(b) => f32::from_bits(*b).to_string(), GVal::F64(b) => f64::from_bits(*b).to_string() };
+							rows.iter().position(|r| r.0.to_string() == txt).map(|r| format!("{j}:{r}")) }).collect()).unwrap_or_default();
+						let got_line = match impl_decode(&raw) { Ok(d) => { let g = dump_tile(&d, false); if g.is_empty() { "-".to_string() } else { g } } Err(_) => "err".into() };
+						col.out.line(&format!("mvt.upd {} {} {}{}{} {} {} => {got_line}", hx(&enc_tile(&t)), hx(layer_name.as_bytes()), replace as u8, remove as u8, include as u8, rows_txt, if idmap.is_empty() { "-".to_string() } else { idmap.join(",") }));
+					}
 					match impl_decode(&raw) { Ok(d) => { let got = dump_tile(&d, false); if got != exp { col.violation("update-content", &desc, "", &format!("expected {exp} got {got}")); } } Err(e) => col.violation("update-output-undecodable", &desc, "", &e) }
 				}
 				other => col.violation("update-fail", &desc, "", &format!("{:?}", other.map(|r| r.map(|o| o.map(|b| b.len())).map_err(|e| format!("{e:#}"))))),
